@@ -80,6 +80,13 @@ func genC03(seed uint64, tier string) *plan.Plan {
 				tmpls = append(tmpls, t)
 			}
 			add(b, how)
+		case x == 8 && r.IntN(3) == 0:
+			// not IPFIX by its version field; the body is a template for an id in force with another layout
+			old := tmpls[r.IntN(len(tmpls))]
+			t := genTemplate(r, old.Dom, old.ID, o)
+			b := t.templateMsg(hdr())
+			b[0], b[1] = 0, []byte{9, 0, 11}[r.IntN(3)]
+			add(b, "template+version")
 		case x < 9:
 			t := tmpls[r.IntN(len(tmpls))]
 			nrec := 1 + r.IntN(4)
